@@ -18,6 +18,10 @@ pub struct Ctx {
     pub flavors: Option<String>,
     pub quick_n: Option<u64>,
     pub thorough_n: Option<u64>,
+    /// lockstep: use the generation profile of another property (violations keep their own tags)
+    pub profile: Option<String>,
+    /// hostile: force a mode
+    pub mode: Option<String>,
 }
 
 impl Ctx {
